@@ -17,15 +17,16 @@ PermCode(p) == IF Len(p) = 0 THEN 0
 
 -----------------------------------------------------------------------------
 (* Family A: the modifier stack.  main.o (strong reference to s2), L1 (defines s1, unreferenced),
-   L2 (defines s2); every sequence of up to K flags around the two libraries, including invalid
-   ones (unbalanced --pop-state). *)
-Flags == {"as", "noas", "push", "pop"}
-FlagCode(t) == CASE t = "as" -> 0 [] t = "noas" -> 1 [] t = "push" -> 2 [] t = "pop" -> 3
+   L2 (defines s2); every sequence of up to K flags (--as-needed, --no-as-needed, --whole-archive,
+   --no-whole-archive, --push-state, --pop-state) around the two libraries, including invalid ones
+   (unbalanced --pop-state).  --whole-archive must not make an as-needed library unconditional. *)
+Flags == {"as", "noas", "push", "pop", "wa", "nowa"}
+FlagCode(t) == CASE t = "as" -> 0 [] t = "noas" -> 1 [] t = "push" -> 2 [] t = "pop" -> 3 [] t = "wa" -> 4 [] t = "nowa" -> 5
 
 FilesA == << File("obj", {}, {"s2"}, {}), File("lib", {"s1"}, {}, {}), File("lib", {"s2"}, {}, {}) >>
 
 SeqCode(fl) == LET RECURSIVE C(_)
-                   C(k) == IF k = 0 THEN 0 ELSE C(k - 1) * 4 + FlagCode(fl[k])
+                   C(k) == IF k = 0 THEN 0 ELSE C(k - 1) * 6 + FlagCode(fl[k])
                IN C(Len(fl))
 
 MkA(fl, i, j) ==
@@ -45,7 +46,7 @@ InitA(K) == \E k \in 0..K : \E fl \in [1..k -> Flags] : \E i \in 0..k : \E j \in
    m (defined by the second file; pulls the archive member in). *)
 FlagTok(a) == Tok(IF a THEN "as" ELSE "noas", 0)
 
-MkB(perm, a, cl, creg, mr, k2, sr) ==
+MkB(perm, a, cl, creg, mr, k2, sr, wa2) ==
     LET files == << File("obj", IF creg = 1 THEN {"c"} ELSE {}, StrongOf(mr), WeakOf(mr)),
                     File(k2, {"m"} \cup (IF creg = 2 THEN {"c"} ELSE {}), StrongOf(sr), WeakOf(sr)),
                     File("lib", {"s1"} \cup (IF cl[1] THEN {"c"} ELSE {}), {}, {}),
@@ -53,11 +54,12 @@ MkB(perm, a, cl, creg, mr, k2, sr) ==
         RECURSIVE T(_)
         T(k) == IF k = 0 THEN <<>>
                 ELSE T(k - 1) \o (IF perm[k] >= 3 THEN <<FlagTok(a[perm[k] - 2]), Tok("file", perm[k])>>
+                                  ELSE IF perm[k] = 2 /\ wa2 THEN <<Tok("wa", 0), Tok("file", 2), Tok("nowa", 0)>>
                                   ELSE <<Tok("file", perm[k])>>)
         B(b) == IF b THEN 1 ELSE 0
         code == ((((((((((PermCode(perm) % 1000) * 2 + B(a[1])) * 2 + B(a[2])) * 2 + B(cl[1])) * 2 + B(cl[2])) * 3 + creg)
                    * 3 + mr.s1) * 3 + mr.s2) * 3 + mr.c) * 3 + mr.m) * 2 + (IF k2 = "obj" THEN 0 ELSE 1)
-    IN [idx |-> (code % 100000) * 9 + sr.s2 * 3 + sr.c + (code \div 100000),
+    IN [idx |-> (code % 100000) * 18 + sr.s2 * 6 + sr.c * 2 + B(wa2) + (code \div 100000),
         tokens |-> T(4), files |-> files]
 
 WellFormedB(cl, creg, mr, k2, sr) ==
@@ -72,11 +74,11 @@ InitB(PermSet, AS, CLS, MS1, MS2, MC, MK, SS2, SC) ==
     \E ms1 \in MS1, ms2 \in MS2, mc \in MC, ss2 \in SS2, sc \in SC :
        LET mr == [s1 |-> ms1, s2 |-> ms2, c |-> mc, m |-> mk[1]]
            sr == [s1 |-> 0, s2 |-> ss2, c |-> sc]
-       IN WellFormedB(cl, creg, mr, mk[2], sr) /\ InitWith(MkB(perm, a, cl, creg, mr, mk[2], sr))
+       IN WellFormedB(cl, creg, mr, mk[2], sr) /\ InitWith(MkB(perm, a, cl, creg, mr, mk[2], sr, mk[3]))
 
 BB == [1..2 -> BOOLEAN]
-(* (reference of main.o to m, kind of the second file) *)
-MK3 == {<<0, "obj">>, <<0, "member">>, <<1, "member">>}
+(* (reference of main.o to m, kind of the second file, second file inside --whole-archive) *)
+MK3 == {<<0, "obj", FALSE>>, <<0, "member", FALSE>>, <<1, "member", FALSE>>, <<0, "member", TRUE>>}
 
 Perms4 == Perms(1..4)
 (* main.o before the second regular file *)
@@ -114,7 +116,7 @@ InitC(MS3) ==
 
 -----------------------------------------------------------------------------
 InitQuick == InitA(3) \/ InitBQuick
-InitThorough == InitA(5) \/ InitBFull \/ InitC({0, 1})
+InitThorough == InitA(4) \/ InitBFull \/ InitC({0, 1})
 SpecQuick == SpecFrom(InitQuick)
 SpecLive == SpecFrom(InitA(2) \/ InitBTiny)
 SpecThorough == SpecFrom(InitThorough)
